@@ -40,6 +40,10 @@ def configs(tier):
                     if tph:
                         kw["trusted_proxy_headers"] = tph
                     out.append(kw)
+        # the logging switch must not change what is cleared
+        out.append(dict(clear_untrusted_proxy_headers=clear, log_untrusted_proxy_headers=True))
+        out.append(dict(trusted_proxy="10.0.0.1", trusted_proxy_count=1, trusted_proxy_headers=["x-forwarded-for"], clear_untrusted_proxy_headers=clear, log_untrusted_proxy_headers=True))
+        out.append(dict(trusted_proxy="10.0.0.1", trusted_proxy_count=1, trusted_proxy_headers=["forwarded"], clear_untrusted_proxy_headers=clear, log_untrusted_proxy_headers=True))
         # scoped (link-local) IPv6 addresses: the zone index is part of the peer's identity
         for tp, peer in (("fe80::1%eth0", "fe80::1%eth1"), ("fe80::1%eth0", "fe80::2%eth0"), ("fe80::1", "fe80::1:0"), ("2001:db8::1", "2001:db8::10")):
             for tph in (["forwarded"], XF):
